@@ -9,7 +9,8 @@ RULE = ("case = CFG description without useless symbols: either a random grammar
         "part, or a grammar built to be LL(1)-like (alternatives of a variable start with different terminals, optional "
         "epsilon alternative, nullable non-empty bodies, left recursion injected sometimes), or a layered 'cascade' "
         "grammar of 3-6 variables whose bodies mention later variables only (nullable through non-empty bodies, predictions "
-        "through FOLLOW sets several levels up). get_first_set / "
+        "through FOLLOW sets several levels up), or a 'nullable web' (variables nullable only through non-empty bodies that "
+        "occur in bodies of each other and of themselves, production order permuted). get_first_set / "
         "get_follow_set on every variable must equal the textbook FIRST (epsilon iff nullable) and FOLLOW ($ for the "
         "start symbol); is_llone_parsable() must equal 'predict sets of each variable pairwise disjoint'; when LL(1): "
         "for all words <=3 over terminals+foreign symbol, all members of length 4 and their one-symbol extensions, "
